@@ -63,6 +63,8 @@ class Opts:
         self.backward_ann = False  # main thread carries '## backward ##' annotations (not nested in each other)
         self.force_second_thread = False
         self.first_op_children = False  # the first file entry may enclose other calls
+        self.fractional_stamps = False  # one case in four is written with sub-microsecond stamps (as current Kineto does): every
+        # complete event [T, T+D] is widened to [T-a, T+D+b], a, b in {0, .25, .5, .75}, so the loader's inward rounding gives T, D back
         self.python_frames = False  # with_stack=True: python_function events wrap operators (host events without graph nodes)
         self.fault_kinds = ["no_launch", "no_kernel", "no_corr"]  # which partner of a launch/activity pair may be missing
         self.backward_ann_ranks = None  # None: every rank may carry '## backward ##' annotations; else only these (generation index)
@@ -538,6 +540,17 @@ def sim_case(draw, o: Optional[Opts] = None, max_ranks: int = 2, same_steps: boo
                 span["ts"] = epoch
                 events.append(span)
         ranks.append({"rank": r, "events": events})
+    fractional = bool(o.fractional_stamps and pick(draw, [True, False, False, False]))
+    if fractional:
+        for rd in ranks:
+            first = True
+            for e in rd["events"]:
+                if e.get("ph") == "X" and e.get("dur") is not None and isinstance(e.get("ts"), int):
+                    a = 0.25 if first else pick(draw, [0, 0.25, 0.5, 0.75])
+                    b = pick(draw, [0, 0.25, 0.5, 0.75])
+                    e["ts"], e["dur"] = e["ts"] - a, e["dur"] + a + b
+                    first = False
+            rd["events"][0]["_frac"] = True
     if renumber:
         from hv.gen.intervals import renumber_ranks
 
@@ -545,4 +558,4 @@ def sim_case(draw, o: Optional[Opts] = None, max_ranks: int = 2, same_steps: boo
     from hv.hta_io import prelude_strategy
 
     return {"ranks": ranks, "fmt": pick(draw, ["json", "gz"]), "mp": pick(draw, [False] * 5 + [True]),
-            "prelude": draw(prelude_strategy()), "shared_corr": bool(shared_corr)}
+            "prelude": draw(prelude_strategy()), "shared_corr": bool(shared_corr), "fractional_stamps": fractional}
